@@ -418,14 +418,15 @@ CHECKS = {
                 "invalidation-processed",
                 "multi-key-invalidation",
                 "flush-invalidation",
-                "connection-lost-with-cache"
+                "connection-lost-with-cache",
+                "dedicated-callback-received-invalidation"
         ],
         "components": {
                 "real": REAL,
                 "stubs": STUBS
         },
         "assumptions": [
-                "dedicated part: before the next user's first command on a connection whose previous dedicated session had installed an invalidation callback, the model saw CLIENT TRACKING OFF and holds no tracking state for it (also reported under C25)"
+                "dedicated part: before the next user's first command on a connection whose previous dedicated session had installed an invalidation callback, the model saw CLIENT TRACKING OFF and holds no tracking state for it (also reported under C25); and the callback a session installs with SetOnInvalidations (sessions that turn on BCAST tracking and then write the watched key; half of the plans also have a client-wide OnInvalidations callback) saw exactly the invalidations the server sent on that connection, in order - all those written before a reply the session received, and nothing the server did not send"
         ]
 },
     "C07": {
